@@ -204,6 +204,18 @@ pub type VA0 = VecUnion<SA0>;
 pub type VO = VecUnion<SO>;
 pub type VMA0 = VecUnion<MA0H>;
 pub type UA0 = UnionFind<ArrayMap<u8, Cell<u8>, 0>>;
+pub type UA3 = UnionFind<ArrayMap<u8, Cell<u8>, 3>>;
+// Atomize types whose wrapped lattice has a reachable top / is a one-point lattice
+pub type TTH = WithTop<WithTop<SH>>;
+pub type TTB = WithTop<WithTop<SB>>;
+pub type TWTH = WithTop<WithBot<WithTop<SH>>>;
+pub type WTTH = WithBot<WithTop<WithTop<SH>>>;
+pub type TU = WithTop<()>;
+pub type WU = WithBot<()>;
+pub type TTU = WithTop<WithTop<()>>;
+pub type MTH = MapUnion<HashMap<u8, TH>>;
+pub type MTTB = MapUnion<BTreeMap<u8, TTB>>;
+pub type MTU = MapUnion<HashMap<u8, TU>>;
 pub type D2A0 = D2<ArraySet<u8, 0>, u8>;
 pub type T3A0 = T3<XU, SA0, WXB>;
 
@@ -266,7 +278,7 @@ pub trait UfSame: Lat {
     fn same_(&self, a: u8, b: u8) -> bool;
 }
 macro_rules! uf_same { ($($U:ty),*) => { $( impl UfSame for $U { fn same_(&self, a: u8, b: u8) -> bool { self.same(a, b).into_reveal() } } )* } }
-uf_same!(UV, UA2, US, UO, UE, UA0);
+uf_same!(UV, UA2, US, UO, UE, UA0, UA3);
 fn ro_same_of<U: UfSame>(r: &R, n: u8) -> Option<Result<Vec<bool>, String>> {
     let u = U::build(r)?;
     Some(vcommon::catch(|| (0..n).flat_map(|a| (0..n).map(move |b| (a, b))).map(|(a, b)| u.same_(a, b)).collect()))
@@ -317,7 +329,7 @@ family!(fam_derive2; selfs: [D2H, D2B]; others: [D2S, D2A0]);
 family!(fam_derive3; selfs: [T3A, T3B]; others: [T3S, T3A0]);
 family!(fam_derive3_concrete; selfs: [D3]; others: []);
 family!(fam_unit; selfs: [()]; others: []);
-family!(fam_union_find; selfs: [UH, UB]; others: [UV, UA2, US, UO, UE, UA0]; uf);
+family!(fam_union_find; selfs: [UH, UB]; others: [UV, UA2, US, UO, UE, UA0, UA3]; uf);
 
 pub fn families() -> Vec<Family> {
     vec![
@@ -474,7 +486,8 @@ pub fn entries() -> Vec<Entry> {
     ]);
 
     // ---- C06: every Atomize type with a Default
-    each!(v, k_c06, [SH, SB, MHH, MBB, PHW, PBW, QH, QB, WH, WB, TH, TB, WTH, WTB, TWH, WWH, UH, UB, ()]);
+    each!(v, k_c06, [SH, SB, MHH, MBB, PHW, PBW, QH, QB, WH, WB, TH, TB, WTH, WTB, TWH, WWH, UH, UB, (),
+        TTH, TTB, TWTH, WTTH, TU, WU, TTU, MTH, MTTB, MTU]);
 
     v
 }
